@@ -4,32 +4,9 @@
    No proofs in this file (soundness of the oracles: proofs/EvalSpecProofs.v). *)
 From Coq Require Import NArith ZArith List Bool String.
 From Verif.lib Require Import Term.
-From Verif.model Require Import Overflow EvalCow EvalApply EvalGroup.
+From Verif.model Require Import Overflow EvalCow EvalApply EvalGroup EvalSpec.
 Import ListNotations.
 Open Scope N_scope.
-
-(* ------------------------------------------------------------------ the property, closed form *)
-(* balance with pending rewards at level [lvl], over unbounded N *)
-Definition bwp (P : params) (lvl : N) (x : acct) : N :=
-  match a_status x with
-  | NotPart => a_algos x
-  | _ => a_algos x + (a_algos x / p_unit P) * (lvl - a_rbase x)
-  end.
-
-Definition table := list (N * acct).
-
-Definition total (P : params) (lvl : N) (t : table) : N :=
-  fold_right (fun e acc => bwp P lvl (snd e) + acc) 0 t.
-
-(* minimum balance requirement, closed form (saturation only at the very end) *)
-Definition spec_min_balance (P : params) (x : acct) : N :=
-  N.min (2 ^ 64 - 1)
-        (p_minbal P + p_minbal P * a_assets x + p_appflatparams P * a_appparams x +
-         p_appflatoptin P * a_applocals x +
-         N.min (2 ^ 64 - 1)
-               (N.min (2 ^ 64 - 1) (p_schemaentry P * N.min (2 ^ 64 - 1) (a_schema_u x + a_schema_b x)) +
-                p_schemauint P * a_schema_u x + p_schemabytes P * a_schema_b x) +
-         p_appflatparams P * a_extrapages x + p_boxflat P * a_boxes x + p_boxbyte P * a_boxbytes x).
 
 (* ------------------------------------------------------------------ observations *)
 Record snap := mkSnap {
@@ -39,7 +16,8 @@ Record snap := mkSnap {
   s_leases : list ((N * N) * N);       (* sorted by key *)
   s_txncount : N;
   s_fees : N;
-  s_payset : N
+  s_payset : N;
+  s_intra_ok : bool                    (* Txids[..].Intra is the insertion position *)
 }.
 
 Fixpoint table_eqb (a b : table) : bool :=
@@ -73,7 +51,8 @@ Fixpoint llist_eqb (a b : list ((N * N) * N)) : bool :=
 Definition snap_eqb (a b : snap) : bool :=
   table_eqb (s_table a) (s_table b) && nlist_eqb (s_mods a) (s_mods b) &&
   plist_eqb (s_txids a) (s_txids b) && llist_eqb (s_leases a) (s_leases b) &&
-  (s_txncount a =? s_txncount b) && (s_fees a =? s_fees b) && (s_payset a =? s_payset b).
+  (s_txncount a =? s_txncount b) && (s_fees a =? s_fees b) && (s_payset a =? s_payset b) &&
+  Bool.eqb (s_intra_ok a) (s_intra_ok b).
 
 (* insertion sort of the lease map by key (the harness sorts the Go map the same way) *)
 Definition lease_lt (a b : (N * N) * N) : bool :=
@@ -90,7 +69,7 @@ Definition snap_of (U : list N) (ev : evalst) : snap :=
   let c := ev_cow ev in
   mkSnap (map (fun a => (a, lookup c a)) U) (modified c) (l_txids (c_top c))
          (lease_sort (l_leases (c_top c))) (l_txncount (c_top c)) (l_fees (c_top c))
-         (N.of_nat (List.length (ev_payset ev))).
+         (N.of_nat (List.length (ev_payset ev))) true.
 
 (* ------------------------------------------------------------------ decoding *)
 Definition opt_bind {A B} (o : option A) (f : A -> option B) : option B :=
@@ -169,13 +148,14 @@ Definition dec_pairs (t : term) : option (list (N * N)) :=
   | _ => None
   end.
 
-(* txids arrive as (id lastvalid intra); intra must be the position *)
-Fixpoint dec_txids_from (i : N) (l : list term) : option (list (N * N)) :=
+(* txids arrive as (id lastvalid intra) sorted by intra; intra should be the position *)
+Fixpoint dec_txids_from (i : N) (l : list term) : option (list (N * N) * bool) :=
   match l with
-  | [] => Some []
+  | [] => Some ([], true)
   | TL [a; b; c] :: r =>
     a' <-? as_N a ;; b' <-? as_N b ;; c' <-? as_N c ;;
-    if c' =? i then (rest <-? dec_txids_from (i + 1) r ;; Some ((a', b') :: rest)) else None
+    rest <-? dec_txids_from (i + 1) r ;;
+    Some ((a', b') :: fst rest, (c' =? i) && snd rest)
   | _ => None
   end.
 
@@ -192,7 +172,7 @@ Definition dec_snap (t : term) : option snap :=
   | TL [tb; mods; TL txids; leases; tc; fees; ps] =>
     tb' <-? dec_table tb ;; mods' <-? as_N_list mods ;; tx' <-? dec_txids_from 0 txids ;;
     ls' <-? dec_leases leases ;; tc' <-? as_N tc ;; fees' <-? as_N fees ;; ps' <-? as_N ps ;;
-    Some (mkSnap tb' mods' tx' ls' tc' fees' ps')
+    Some (mkSnap tb' mods' (fst tx') ls' tc' fees' ps' (snd tx'))
   | _ => None
   end.
 
@@ -316,6 +296,7 @@ Definition group_step_ok (sink : N) (before : snap) (g : gobs) : bool :=
   let after := g_snap g in
   if g_code g =? 0 then
     let n := N.of_nat (List.length (g_txns g)) in
+    s_intra_ok after &&
     (s_payset after =? s_payset before + n) &&
     (s_txncount after =? s_txncount before + n) &&
     plist_eqb (s_txids after) (s_txids before ++ map (fun tx => (t_txid tx, t_lv tx)) (g_txns g)) &&
